@@ -174,14 +174,14 @@ class _Tagged:
 _SUBCLASSES = {}
 
 
-def user_subclasses(o, rng, share=0.5):
+def user_subclasses(o, rng, share=0.5, only_root=False):
     """turn a share of the nodes of `o` into instances of user-defined subclasses whose FIRST base is a plain mixin
     (`class TaggedWord(Tagged, Word)`): everything the library does by class -- handler lookup along the class
     hierarchy, isinstance tests, cloning with `type(self)` -- must treat them as the luqum class they derive from
     (seeded C08-G, C15-G: the hierarchy walked through `__base__`, which follows the first base only).
     Returns the number of nodes re-classed."""
     n = 0
-    for x in all_nodes(o):
+    for x in ([o] if only_root else all_nodes(o)):
         base = type(x)
         if base.__module__ != "luqum.tree" or base.__name__ == "NoneItem" or rng.random() >= share:
             continue
